@@ -14,7 +14,31 @@ variable (T : PTables)
 
 /-- with no fuel every function of the expander answers `outOfFuel` -/
 theorem allSpecs_zero (nroot : Nat) : AllSpecs T nroot 0 := by
-  sorry
+  refine { seq := ?_, text := ?_, envName := ?_, begin_ := ?_, end_ := ?_, macro_ := ?_, args := ?_,
+           item := ?_, accent := ?_, work := ?_, init := ?_, modParams := ?_, keyvals := ?_, value := ?_,
+           expandKv := ?_, modDesc := ?_, handler := ?_, mathSec := ?_, inline := ?_, dispLoop := ?_,
+           display := ?_ }
+  · unfold SpecSeq; intros; rw [expandSequence.eq_1]; exact Post_outOfFuel _ _
+  · unfold SpecText; intros; rw [getTextExpanded.eq_1]; exact Post_outOfFuel _ _
+  · unfold SpecEnvName; intros; rw [getEnvironmentName.eq_1]; exact Post_outOfFuel _ _
+  · unfold SpecBegin; intros; rw [beginEnvironment.eq_1]; exact Post_outOfFuel _ _
+  · unfold SpecEnd; intros; rw [endEnvironment.eq_1]; exact Post_outOfFuel _ _
+  · unfold SpecMacro; intros; rw [expandMacro.eq_1]; exact Post_outOfFuel _ _
+  · unfold SpecArgs; intros; rw [expandArguments.eq_1]; exact Post_outOfFuel _ _
+  · unfold SpecItem; intros; rw [expandItem.eq_1]; exact Post_outOfFuel _ _
+  · unfold SpecAccent; intros; rw [expandAccent.eq_1]; exact Post_outOfFuel _ _
+  · unfold SpecWork; intros; rw [parserWork.eq_1]; exact Post_outOfFuel _ _
+  · unfold SpecInit; intros; rw [initPackage.eq_1]; exact Post_outOfFuel _ _
+  · unfold SpecModParams; intros; rw [modifyParameters.eq_1]; exact Post_outOfFuel _ _
+  · unfold SpecKeyvals; intros; rw [parseKeyvals.eq_1]; exact Post_outOfFuel _ _
+  · unfold SpecValue; intros; rw [parseValue.eq_1]; exact Post_outOfFuel _ _
+  · unfold SpecExpandKv; intros; rw [expandKeyvals.eq_1]; exact Post_outOfFuel _ _
+  · unfold SpecModDesc; intros; rw [modifyDescription.eq_1]; exact Post_outOfFuel _ _
+  · unfold SpecHandler; intros; rw [callHandler.eq_1]; exact Post_outOfFuel _ _
+  · unfold SpecMathSec; intros; rw [expandMathSection.eq_1]; exact Post_outOfFuel _ _
+  · unfold SpecInline; intros; rw [expandInlineMath.eq_1]; exact Post_outOfFuel _ _
+  · unfold SpecDispLoop; intros; rw [displayLoop.eq_1]; exact Post_outOfFuel _ _
+  · unfold SpecDisplay; intros; rw [expandDisplayMath.eq_1]; exact Post_outOfFuel _ _
 
 /-- the bundle: every function of the expander keeps the range invariant, for every fuel -/
 theorem allSpecs (hw : T.WFInv) (nroot : Nat) : ∀ fuel, AllSpecs T nroot fuel := by
@@ -35,6 +59,202 @@ theorem allSpecs (hw : T.WFInv) (nroot : Nat) : ∀ fuel, AllSpecs T nroot fuel 
       inline := inline_step T hw nroot fuel IH, dispLoop := dispLoop_step T hw nroot fuel IH,
       display := display_step T hw nroot fuel IH }
 
+/-! ### helpers for `parse_inRange` -/
+
+theorem findModule_mem (cls : Bool) (name : Str) (md : ModuleDef) (h : findModule T cls name = some md) :
+    md ∈ T.packageModules ++ T.classModules := by
+  unfold findModule at h
+  split at h
+  · cases h
+  · have := List.mem_of_find?_eq_some h
+    cases cls <;> simp_all
+
+theorem moduleOk_getD (hw : T.WFInv) (cls : Bool) (name : Str) :
+    ∀ m ∈ ((findModule T cls name).getD (emptyModule name)).macros ++
+          ((findModule T cls name).getD (emptyModule name)).envs, macroToksOk T m = true := by
+  cases h : findModule T cls name with
+  | none => simp [emptyModule]
+  | some md => exact hw.modules_ok md (findModule_mem T cls name md h)
+
+theorem getPackages_ok (hw : T.WFInv) (cls : Bool) (packs : Str) :
+    ∀ nm ∈ getPackages T cls packs, ∀ m ∈ nm.2.macros ++ nm.2.envs, macroToksOk T m = true := by
+  intro nm hnm
+  unfold getPackages at hnm
+  split at hnm
+  · cases hnm
+  · simp only [List.mem_flatten, List.mem_map] at hnm
+    obtain ⟨l, ⟨p, _, rfl⟩, hl⟩ := hnm
+    split at hl
+    · simp only [List.mem_map] at hl
+      obtain ⟨m, _, rfl⟩ := hl
+      exact moduleOk_getD T hw cls m
+    · simp only [List.mem_singleton] at hl
+      subst hl
+      exact moduleOk_getD T hw cls p
+
+theorem builtin_ok (hw : T.WFInv) (o : Options) :
+    ∀ m ∈ (builtinModule T o).macros ++ (builtinModule T o).envs, macroToksOk T m = true := by
+  intro m hm
+  apply hw.macros_ok
+  unfold builtinModule at hm
+  simp only [List.mem_append] at hm ⊢
+  rcases hm with (hm | hm) | hm
+  · exact Or.inl (Or.inl hm)
+  · split at hm
+    · exact Or.inl (Or.inr hm)
+    · cases hm
+  · exact Or.inr hm
+
+theorem forM_init_G (nroot fuel : Nat) (A : AllSpecs T nroot fuel) (mods : List (Str × ModuleDef))
+    (hm : ∀ nm ∈ mods, ∀ m ∈ nm.2.macros ++ nm.2.envs, macroToksOk T m = true) (st : PState)
+    (hg : G T nroot st) :
+    Post (mods.forM (fun nm => (do let _ ← initPackage T fuel nm.1 nm.2 false [] 0; pure () : M Unit)) st)
+      (fun _ s => G T nroot s) := by
+  induction mods generalizing st with
+  | nil => exact Post_pure (α := PUnit) _ _ _ hg
+  | cons nm rest ih =>
+    apply Post_bind (β := PUnit) _ (fun _ => rest.forM _) _ (Q := fun _ s => G T nroot s)
+    · apply Post_bind _ _ _ (Q := fun _ s => G T nroot s)
+      · exact Post_mono _ _ _ (A.init nm.1 nm.2 false [] 0 st hg (hm nm (List.mem_cons_self ..)))
+          (fun a s h => h.1.1)
+      · intro a s h; exact Post_pure _ _ _ h
+    · intro _ s h
+      exact ih (fun nm' h' => hm nm' (List.mem_cons_of_mem _ h')) s h
+
+theorem initParser_G (nroot fuel : Nat) (A : AllSpecs T nroot fuel) (o : Options)
+    (hb : ∀ m ∈ (builtinModule T o).macros ++ (builtinModule T o).envs, macroToksOk T m = true)
+    (hm : ∀ cls packs, ∀ nm ∈ getPackages T cls packs, ∀ m ∈ nm.2.macros ++ nm.2.envs, macroToksOk T m = true)
+    (st : PState) (hg : G T nroot st) :
+    Post (initParser T fuel o st) (fun _ s => G T nroot s) := by
+  unfold initParser
+  apply Post_bind _ _ _ (Q := fun _ s => G T nroot s)
+  · exact Post_mono _ _ _ (A.init [] (builtinModule T o) true [] 0 st hg hb) (fun a s h => h.1.1)
+  · intro _ s h
+    apply forM_init_G T nroot fuel A _ _ s h
+    intro nm hnm
+    rcases List.mem_append.1 hnm with h' | h'
+    · exact hm _ _ nm h'
+    · exact hm _ _ nm h'
+
+theorem initialState_G (nroot : Nat) (o : Options) (multi : Bool) (fs : FS) :
+    G T nroot (initialState T o multi fs) := by
+  refine { flows := ?_, macros := ?_, envs := ?_, gloss := ?_, root := ?_, inFrame := ?_ }
+  · intro _ e he; simp [initialState] at he
+  · intro m hm; simp [initialState] at hm
+  · intro m hm; simp [initialState] at hm
+  · intro e he; simp [initialState] at he
+  · intro h; simp [initialState] at h
+  · simp [initialState]
+
+theorem filterSetToks_lang_txt (m p : Nat) (ts : List Tok) (h : OL T m ts) :
+    ∀ t ∈ filterSetToks ts p true, t.txt = [] := by
+  intro t ht
+  simp only [filterSetToks, List.mem_map, List.mem_filter] at ht
+  obtain ⟨t', ⟨ht', hl⟩, rfl⟩ := ht
+  have hc := (h t' ht').1.2.2.1
+  simp only [Bool.not_true, Bool.false_or] at hl
+  unfold isLang at hl
+  unfold ctlEmpty at hc
+  split at hl
+  · simp_all
+  · cases hl
+
+theorem flow_inRange (n : Nat) (e : List Tok) (he : OL T n e) :
+    ∀ t ∈ (match e.head?, e.getLast? with
+      | some h, some l => [mkFix .par h.pos [nl, nl, nl]] ++ e ++ [mkFix .space l.pos [nl]]
+      | _, _ => []), TokInRange n t := by
+  intro t ht
+  split at ht
+  · rename_i h l hh hl
+    have hh' : h ∈ e := List.mem_of_head? hh
+    have hl' : l ∈ e := List.mem_of_getLast? hl
+    simp only [List.mem_append, List.mem_singleton] at ht
+    rcases ht with (rfl | ht) | rfl
+    · exact OTok_inRange T n _ (OTok_mkFix T n _ _ _ (he h hh').1.1 (Or.inr (Or.inr rfl)))
+    · exact OTok_inRange T n _ (he t ht)
+    · exact OTok_inRange T n _ (OTok_mkFix T n _ _ _ (he l hl').1.1 (Or.inr (Or.inl rfl)))
+  · cases ht
+
+/-- `parse` after the optional `init_extractions` -/
+def parseRest (T : PTables) (fuel : Nat) (latex define : Str) (extract : List Str) : M (List Tok) := do
+  M.modify (fun s => { s with extracted := [], unknowns := [] })
+  let main0 ← (if define.isEmpty then pure [] else do
+    let t ← parserWork T fuel define
+    pure (filterSetToks t 0 true))
+  M.modify (fun s => { s with extracted := [], foreign := false, nest := 0 })
+  let body ← parserWork T fuel latex
+  let st ← M.get
+  let main := if extract.isEmpty then main0 ++ body else []
+  let flows := st.extracted.map (fun e =>
+    match e.head?, e.getLast? with
+    | some h, some l => [mkFix .par h.pos [nl, nl, nl]] ++ e ++ [mkFix .space l.pos [nl]]
+    | _, _ => [])
+  pure (main ++ flows.flatten)
+
+theorem parse_eq (fuel : Nat) (latex define : Str) (extract : List Str) :
+    parse T fuel latex define extract =
+      if !extract.isEmpty then (M.modify (fun s => initExtractions T s extract) >>= fun _ => parseRest T fuel latex define extract)
+      else parseRest T fuel latex define extract := by
+  rfl
+
+theorem parseRest_G (fuel : Nat) (latex define : Str) (A : AllSpecs T latex.length fuel)
+    (extr : List Str) (s1 : PState) (hg1 : G T latex.length s1) :
+    Post (parseRest T fuel latex define extr s1)
+      (fun toks st' => st'.foreign = false → ∀ t ∈ toks, t.txt ≠ [] → TokInRange latex.length t) := by
+  unfold parseRest
+  apply Post_bind _ _ _ (Q := fun _ s => G T latex.length s)
+  · apply Post_modify
+    exact { flows := fun _ e he => (by cases he), macros := hg1.macros, envs := hg1.envs, gloss := hg1.gloss,
+            root := hg1.root, inFrame := hg1.inFrame }
+  intro _ s2 hg2
+  apply Post_bind _ _ _ (Q := fun m0 s => G0 T latex.length s ∧ ∀ t ∈ m0, t.txt = [])
+  · split
+    · apply Post_pure
+      exact ⟨hg2.toG0, fun t ht => by cases ht⟩
+    · apply Post_bind _ _ _ (Q := fun r s => G0 T latex.length s ∧ OL T define.length r)
+      · exact Post_mono _ _ _ (A.work define s2 hg2.toG0 (fun h => absurd h hg2.inFrame) hg2.root)
+          (fun a s h => ⟨h.1, h.2.2⟩)
+      · intro r s h
+        apply Post_pure
+        exact ⟨h.1, filterSetToks_lang_txt T _ _ _ h.2⟩
+  intro main0 s3 ⟨hg3, hm0⟩
+  apply Post_bind _ _ _ (Q := fun _ s => G0 T latex.length s ∧ s.nest = 0)
+  · apply Post_modify
+    exact ⟨{ flows := fun _ e he => (by cases he), macros := hg3.macros, envs := hg3.envs, gloss := hg3.gloss }, rfl⟩
+  intro _ s4 ⟨hg4, hn4⟩
+  apply Post_bind _ _ _ (Q := fun r s => G0 T latex.length s ∧ OL T latex.length r)
+  · exact Post_mono _ _ _ (A.work latex s4 hg4 (fun _ => rfl) (fun h => by omega))
+      (fun a s h => ⟨h.1, h.2.2⟩)
+  intro body s5 ⟨hg5, hbody⟩
+  apply Post_bind _ _ _ (Q := fun r s => r = s ∧ s = s5)
+  · exact Post_get _ _ ⟨rfl, rfl⟩
+  intro st5 s6 ⟨h1, h2⟩
+  subst h1; subst h2
+  apply Post_pure
+  intro hf t ht hne
+  rcases List.mem_append.1 ht with ht | ht
+  · split at ht
+    · rcases List.mem_append.1 ht with ht | ht
+      · exact absurd (hm0 t ht) hne
+      · exact OTok_inRange T _ _ (hbody t ht)
+    · cases ht
+  · simp only [List.mem_flatten, List.mem_map] at ht
+    obtain ⟨l, ⟨e, he, rfl⟩, hl⟩ := ht
+    exact flow_inRange T _ e (hg5.flows hf e he) t hl
+
+theorem parse_G (hw : T.WFInv) (fuel : Nat) (latex define : Str) (A : AllSpecs T latex.length fuel)
+    (extr : List Str) (st : PState) (hg : G T latex.length st) :
+    Post (parse T fuel latex define extr st)
+      (fun toks st' => st'.foreign = false → ∀ t ∈ toks, t.txt ≠ [] → TokInRange latex.length t) := by
+  rw [parse_eq]
+  split
+  · apply Post_bind _ _ _ (Q := fun _ s => G T latex.length s)
+    · apply Post_modify
+      exact { toG0 := initExtractions_G0 T hw _ _ _ hg.toG0, root := hg.root, inFrame := hg.inFrame }
+    · intro _ s1 hg1
+      exact parseRest_G T fuel latex define A extr s1 hg1
+  · exact parseRest_G T fuel latex define A extr st hg
+
 /-- `Parser.__init__` followed by `Parser.parse`: unless a text flow was extracted outside
     the root document (ghost flag `foreign`), every token of the result that carries text is
     in range of the root document -/
@@ -42,6 +262,11 @@ theorem parse_inRange (hw : T.WFInv) (fuel : Nat) (latex : Str) (o : Options) (m
     (extr : List Str) :
     Post ((do initParser T fuel o; parse T fuel latex o.defs extr) (initialState T o multi fs))
       (fun toks st' => st'.foreign = false → ∀ t ∈ toks, t.txt ≠ [] → TokInRange latex.length t) := by
-  sorry
+  have A := allSpecs T hw latex.length fuel
+  apply Post_bind _ _ _ (Q := fun _ s => G T latex.length s)
+  · exact initParser_G T latex.length fuel A o (builtin_ok T hw o) (getPackages_ok T hw) _
+      (initialState_G T latex.length o multi fs)
+  · intro _ s hg
+    exact parse_G T hw fuel latex o.defs A extr s hg
 
 end Yalafi
